@@ -12,6 +12,7 @@ import (
 	"encoding/hex"
 	"errors"
 	"fmt"
+	"runtime"
 	"sort"
 	"strings"
 	"time"
@@ -169,6 +170,7 @@ func (w *World) node(id uint64) *Node { return w.Nodes[id-1] }
 
 // Close ends the execution and releases the disks.
 func (w *World) Close() {
+	defer collect()
 	w.S.End()
 	for _, n := range w.Nodes {
 		if n.Conn != nil {
@@ -603,5 +605,17 @@ func (w *World) CheckLogMatching() {
 				}
 			}
 		}
+	}
+}
+
+// collect runs a garbage collection after every 16th world: a world is megabytes of Badger arenas and table buffers
+// that die with it, thousands of worlds per minute; on a loaded machine the concurrent collector fell gigabytes behind
+// (workers at 1.7 GB resident with a live heap of 50 MB, some dying at their address-space limit).
+var closes int
+
+func collect() {
+	closes++
+	if closes%16 == 0 {
+		runtime.GC()
 	}
 }
